@@ -6,8 +6,9 @@
 # a Python dict object passed around by reference: identity + (immutable) value
 cls("DictObj", truthy="value", value="U")
 
-cls("FileInfo", file_path="U", hash_checksums="U",
-    _order=["file_path", "hash_checksums"], _defaults={"hash_checksums": "EMPTY_TUPLE()"})
+cls("FileInfo", file_path="U", hash_checksums="list:U",
+    _order=["file_path", "hash_checksums"], _defaults={"hash_checksums": "EMPTY_LIST_U()"},
+    _validate={"file_path": "no_directory_traversal"})
 cls("ShardInfo", file_infos="list:ref:FileInfo", number_of_examples="int",
     custom_metadata="ref:DictObj",
     _order=["file_infos", "number_of_examples", "custom_metadata"],
@@ -15,11 +16,13 @@ cls("ShardInfo", file_infos="list:ref:FileInfo", number_of_examples="int",
 cls("ShardListInfo", shard_list_info_file="ref:FileInfo", number_of_examples="int",
     number_of_shards="int",
     _order=["shard_list_info_file", "number_of_examples", "number_of_shards"],
-    _defaults={"number_of_examples": "0", "number_of_shards": "0"})
+    _defaults={"number_of_examples": "0", "number_of_shards": "0"},
+    _validate={"shard_list_info_file": "check_is_shards_list"})
 cls("ShardsList", relative_path_self="U", number_of_examples="int",
     shard_files="list:ref:ShardInfo", children_shard_lists="list:ref:ShardListInfo",
     _order=["relative_path_self", "number_of_examples", "shard_files", "children_shard_lists"],
-    _defaults={"number_of_examples": "0", "shard_files": "[]", "children_shard_lists": "[]"})
+    _defaults={"number_of_examples": "0", "shard_files": "EMPTY_LIST_REF('ShardInfo')", "children_shard_lists": "EMPTY_LIST_REF('ShardListInfo')"},
+    _validate={"relative_path_self": "check_is_shards_list"})
 
 cls("DatasetStructure", saved_data_description="U", compression="U",
     examples_per_shard="int", shard_file_type="U", hash_checksum_algorithms="U")
